@@ -150,8 +150,8 @@ def gen_world(rng, nrec=25, nloc=2, with_maps=True, with_ecs=True, default_route
         elif k == "'":
             n = rng.choice([1, 2, 5, 20, 127, 128, 300])
             body = [rng.choice(b"abcxyz019 =_-;\"") for _ in range(n)]
-            if rng.random() < 0.2 and n:
-                body[rng.randrange(n)] = rng.choice([44, 58, 92, 10, 0, 200])
+            if rng.random() < 0.4 and n:
+                body[rng.randrange(n)] = rng.choice([44, 44, 58, 58, 92, 10, 0, 200])
             w.add(L("'", nm(owner), wild=wild, rd=body, ttl=ttl(), loc=lo))
         elif k == ":":
             t, rd = rng.choice([(65280, [1, 2, 3, 255, 0]), (65281, []), (13, [3, 99, 112, 117, 2, 111, 115]), (99, [4, 118, 61, 115, 49])])
